@@ -1,5 +1,703 @@
 package zverif
 
-func (e *daemonEngine) applyExtra(a Act, n *dNode) {}
+// Property-specific parts of E-daemon: the request fuzzer and probes (C14), the
+// secret scan (C15), multi-chain routing (C19).
 
-func (e *daemonEngine) finalExtra(res *RunResult) {}
+import (
+	"bytes"
+	"context"
+	"encoding/base64"
+	"encoding/hex"
+	"fmt"
+	"net/http/httptest"
+	"os"
+	"path/filepath"
+	"strings"
+	"time"
+
+	"google.golang.org/protobuf/proto"
+	"google.golang.org/protobuf/types/known/timestamppb"
+
+	pdkg "github.com/drand/drand/v2/protobuf/dkg"
+	"github.com/drand/drand/v2/protobuf/drand"
+)
+
+func (e *daemonEngine) applyExtra(a Act, n *dNode) {
+	switch a.Kind {
+	case "fuzz":
+		if n != nil {
+			go e.fuzz(n, int(a.A), a.AtMs)
+		}
+	case "probe":
+		if n != nil {
+			go e.probe(n, "scripted")
+		}
+	case "route":
+		if n != nil {
+			go e.routeCheck(n, a.AtMs)
+		}
+	case "stop_beacon":
+		if n != nil {
+			e.stopBeacon(n, a.S)
+		}
+	case "load_beacon":
+		if n != nil {
+			e.loadBeacon(n, a.S)
+		}
+	}
+}
+
+func (e *daemonEngine) finalExtra(res *RunResult) {
+	if e.sc.Mode == "fuzz" {
+		for i := 0; i < e.sc.N; i++ {
+			if e.nodes[i].up {
+				e.probe(e.nodes[i], "final")
+			}
+		}
+	}
+	if e.keepIO {
+		e.scanSecrets()
+	}
+	if len(e.beaconIDs()) > 1 {
+		for i := 0; i < e.sc.N; i++ {
+			if e.nodes[i].up {
+				e.routeCheck(e.nodes[i], 999_999)
+			}
+		}
+	}
+}
+
+// ---------------------------------------------------------------- C14: fuzzer
+
+func fzBytes(r *Rng, real []byte) []byte {
+	switch r.Intn(9) {
+	case 0:
+		return nil
+	case 1:
+		return []byte{}
+	case 2:
+		return []byte{byte(r.Intn(256))}
+	case 3:
+		b := make([]byte, []int{2, 3, 31, 32, 47, 48, 49, 95, 96, 97, 98}[r.Intn(11)])
+		for i := range b {
+			b[i] = byte(r.Intn(256))
+		}
+		return b
+	case 4:
+		b := make([]byte, r.Range(1000, 70000))
+		for i := range b {
+			b[i] = byte(i)
+		}
+		return b
+	case 5:
+		if len(real) > 2 {
+			return real[:len(real)/2]
+		}
+	case 6:
+		if len(real) > 0 {
+			b := append([]byte(nil), real...)
+			b[r.Intn(len(b))] ^= byte(1 << r.Intn(8))
+			return b
+		}
+	}
+	return real
+}
+
+func (e *daemonEngine) fzMetadata(r *Rng) *drand.Metadata {
+	switch r.Intn(8) {
+	case 0:
+		return nil
+	case 1:
+		return &drand.Metadata{}
+	}
+	m := &drand.Metadata{BeaconID: r.Pick("", "default", "default", "unknown", "DEFAULT", strings.Repeat("x", 300))}
+	ids := e.beaconIDs()
+	if r.Bool(30) {
+		m.BeaconID = ids[r.Intn(len(ids))]
+	}
+	switch r.Intn(5) {
+	case 0:
+		m.ChainHash, _ = hex.DecodeString(e.chainHashHex(ids[r.Intn(len(ids))]))
+	case 1:
+		m.ChainHash = fzBytes(r, nil)
+	}
+	if r.Bool(30) {
+		pre := "x"
+		m.NodeVersion = &drand.NodeVersion{Major: uint32(r.Intn(4)), Minor: uint32(r.Intn(3)), Patch: uint32(r.Intn(50))}
+		if r.Bool(30) {
+			m.NodeVersion.Prerelease = &pre
+		}
+	}
+	return m
+}
+
+func (e *daemonEngine) fzParticipant(r *Rng) *pdkg.Participant {
+	switch r.Intn(6) {
+	case 0:
+		return nil
+	case 1:
+		return &pdkg.Participant{}
+	case 2:
+		return &pdkg.Participant{Address: "evil.sim:1", Key: fzBytes(r, nil), Signature: fzBytes(r, nil)}
+	}
+	n := e.nodes[r.Intn(len(e.nodes))]
+	p := e.participant(n, "default")
+	if r.Bool(25) {
+		p.Key = fzBytes(r, p.Key)
+	}
+	if r.Bool(25) {
+		p.Signature = fzBytes(r, p.Signature)
+	}
+	return p
+}
+
+func (e *daemonEngine) fzParticipants(r *Rng) []*pdkg.Participant {
+	var out []*pdkg.Participant
+	for k := r.Intn(5); k > 0; k-- {
+		out = append(out, e.fzParticipant(r))
+	}
+	return out
+}
+
+func fzTime(r *Rng) *timestamppb.Timestamp {
+	switch r.Intn(5) {
+	case 0:
+		return nil
+	case 1:
+		return &timestamppb.Timestamp{Seconds: -1 << 62, Nanos: -5}
+	case 2:
+		return &timestamppb.Timestamp{Seconds: 1 << 61}
+	case 3:
+		return timestamppb.New(time.Now().Add(-time.Hour))
+	}
+	return timestamppb.New(time.Now().Add(time.Minute))
+}
+
+func (e *daemonEngine) fzGossipMeta(r *Rng) *pdkg.GossipMetadata {
+	switch r.Intn(6) {
+	case 0:
+		return nil
+	case 1:
+		return &pdkg.GossipMetadata{}
+	}
+	m := &pdkg.GossipMetadata{BeaconID: r.Pick("default", "default", "", "unknown"), Address: e.nodes[r.Intn(len(e.nodes))].addr}
+	m.Signature = fzBytes(r, bytes.Repeat([]byte{7}, 96))
+	if r.Bool(40) {
+		// a signature nobody has seen yet (the dedup set is keyed by it)
+		m.Signature = []byte(fmt.Sprintf("%016x%016x", r.U64(), r.U64()))
+	}
+	return m
+}
+
+func (e *daemonEngine) fzDKGPacket(r *Rng) *pdkg.DKGPacket {
+	switch r.Intn(5) {
+	case 0:
+		return &pdkg.DKGPacket{}
+	case 1:
+		return &pdkg.DKGPacket{Dkg: &pdkg.Packet{}}
+	}
+	p := &pdkg.Packet{Metadata: e.fzMetadata(r)}
+	switch r.Intn(4) {
+	case 0:
+		p.Bundle = &pdkg.Packet_Deal{Deal: &pdkg.DealBundle{DealerIndex: uint32(r.Intn(9)), Commits: [][]byte{fzBytes(r, nil), nil}, Deals: []*pdkg.Deal{nil, {ShareIndex: 1 << 30, EncryptedShare: fzBytes(r, nil)}}, SessionId: fzBytes(r, nil), Signature: fzBytes(r, nil)}}
+	case 1:
+		p.Bundle = &pdkg.Packet_Response{Response: &pdkg.ResponseBundle{ShareIndex: uint32(r.Intn(9)), Responses: []*pdkg.Response{nil, {DealerIndex: 99}}, SessionId: fzBytes(r, nil), Signature: fzBytes(r, nil)}}
+	case 2:
+		p.Bundle = &pdkg.Packet_Justification{Justification: &pdkg.JustificationBundle{DealerIndex: uint32(r.Intn(9)), Justifications: []*pdkg.Justification{nil, {ShareIndex: 7, Share: fzBytes(r, nil)}}, SessionId: fzBytes(r, nil), Signature: fzBytes(r, nil)}}
+	case 3:
+		p.Bundle = &pdkg.Packet_Deal{Deal: nil}
+	}
+	return &pdkg.DKGPacket{Dkg: p}
+}
+
+// fzRequest draws one request: (method, message, label of the variant).
+func (e *daemonEngine) fzRequest(r *Rng) (string, proto.Message, string) {
+	cur := e.curRound("default")
+	rounds := []uint64{0, 1, cur, cur + 1, cur + 2, cur + 1000, 1 << 40, ^uint64(0), ^uint64(0) >> 1}
+	switch r.Intn(12) {
+	case 0:
+		return MPartial, &drand.PartialBeaconPacket{Round: rounds[r.Intn(len(rounds))], PreviousSignature: fzBytes(r, nil), PartialSig: fzBytes(r, nil), Metadata: e.fzMetadata(r)}, "partial"
+	case 1:
+		return MSyncChain, &drand.SyncRequest{FromRound: rounds[r.Intn(len(rounds))], Metadata: e.fzMetadata(r)}, "sync"
+	case 2:
+		return MIdentity, &drand.IdentityRequest{Metadata: e.fzMetadata(r)}, "identity"
+	case 3:
+		req := &drand.StatusRequest{Metadata: e.fzMetadata(r)}
+		for k := r.Intn(4); k > 0; k-- {
+			req.CheckConn = append(req.CheckConn, []*drand.Address{nil, {}, {Address: "nowhere.sim:1"}, {Address: e.nodes[r.Intn(len(e.nodes))].addr}}[r.Intn(4)])
+		}
+		return MStatus, req, "status"
+	case 4:
+		return MPublicRand, &drand.PublicRandRequest{Round: rounds[r.Intn(len(rounds))], Metadata: e.fzMetadata(r)}, "publicrand"
+	case 5:
+		return MRandStream, &drand.PublicRandRequest{Round: rounds[r.Intn(len(rounds))], Metadata: e.fzMetadata(r)}, "randstream"
+	case 6:
+		return MChainInfo, &drand.ChainInfoRequest{Metadata: e.fzMetadata(r)}, "chaininfo"
+	case 7:
+		return MListBeacons, &drand.ListBeaconIDsRequest{}, "listbeacons"
+	case 8:
+		return MDKGBcast, e.fzDKGPacket(r), "broadcastdkg"
+	}
+	// gossip packet, every oneof variant
+	g := &pdkg.GossipPacket{Metadata: e.fzGossipMeta(r)}
+	label := "gossip-none"
+	switch r.Intn(8) {
+	case 0:
+		label = "gossip-proposal"
+		var terms *pdkg.ProposalTerms
+		if r.Bool(85) {
+			terms = &pdkg.ProposalTerms{BeaconID: r.Pick("default", "", "unknown"), Epoch: uint32(r.Intn(4)), Leader: e.fzParticipant(r), Threshold: uint32(r.Intn(6)), Timeout: fzTime(r),
+				CatchupPeriodSeconds: uint32(r.Intn(3)), BeaconPeriodSeconds: uint32(r.Intn(3)), SchemeID: r.Pick(e.sc.Scheme, "", "nope"), GenesisTime: fzTime(r), GenesisSeed: fzBytes(r, nil),
+				Joining: e.fzParticipants(r), Remaining: e.fzParticipants(r), Leaving: e.fzParticipants(r)}
+		}
+		g.Packet = &pdkg.GossipPacket_Proposal{Proposal: terms}
+	case 1:
+		label = "gossip-accept"
+		var a *pdkg.AcceptProposal
+		if r.Bool(80) {
+			a = &pdkg.AcceptProposal{Acceptor: e.fzParticipant(r)}
+		}
+		g.Packet = &pdkg.GossipPacket_Accept{Accept: a}
+	case 2:
+		label = "gossip-reject"
+		var a *pdkg.RejectProposal
+		if r.Bool(80) {
+			a = &pdkg.RejectProposal{Rejector: e.fzParticipant(r), Reason: "x"}
+		}
+		g.Packet = &pdkg.GossipPacket_Reject{Reject: a}
+	case 3:
+		label = "gossip-abort"
+		var a *pdkg.AbortDKG
+		if r.Bool(80) {
+			a = &pdkg.AbortDKG{Reason: "x"}
+		}
+		g.Packet = &pdkg.GossipPacket_Abort{Abort: a}
+	case 4:
+		label = "gossip-execute"
+		var a *pdkg.StartExecution
+		if r.Bool(80) {
+			a = &pdkg.StartExecution{Time: fzTime(r)}
+		}
+		g.Packet = &pdkg.GossipPacket_Execute{Execute: a}
+	case 5, 6:
+		label = "gossip-dkg"
+		g.Packet = &pdkg.GossipPacket_Dkg{Dkg: e.fzDKGPacket(r)}
+	}
+	return MDKGPacket, g, label
+}
+
+// timedCall sends one request straight to the node's endpoint (through the real
+// interceptor chain) with the deadline a real client would set, and waits for the
+// handler itself - not the caller - to come back.
+func (e *daemonEngine) timedCall(n *dNode, method string, msg proto.Message, label string, bound time.Duration) (returned bool, err error) {
+	b, merr := proto.Marshal(msg)
+	if merr != nil {
+		return true, merr
+	}
+	ep := &daemonEP{n}
+	base, cancelBase := serverCtx("fuzzer.sim:1")
+	defer cancelBase()
+	ctx, cancel := context.WithTimeout(base, unaryTimeout)
+	defer cancel()
+	done := make(chan error, 1)
+	go func() {
+		if method == MSyncChain || method == MRandStream {
+			items := 0
+			done <- ep.Stream(ctx, method, b, func(proto.Message) error {
+				items++
+				if items >= 3 {
+					cancel()
+				}
+				return ctx.Err()
+			})
+			return
+		}
+		_, err := ep.Unary(ctx, method, b)
+		done <- err
+	}()
+	e.rec.Count("fuzz:"+label, 1)
+	select {
+	case err := <-done:
+		return true, err
+	case <-time.After(bound):
+		e.rec.Violate("C14", "request-never-returned", label, "node %s: %s (%s) did not return within %s of virtual time although its caller's deadline was %s", n.addr, method, label, bound, unaryTimeout)
+		return false, nil
+	}
+}
+
+func (e *daemonEngine) fuzz(n *dNode, count int, at int64) {
+	r := NewRng(H64(e.sc.Seed, "fuzz", n.idx, at))
+	for i := 0; i < count; i++ {
+		if !n.up {
+			return
+		}
+		method, msg, label := e.fzRequest(r)
+		bound := 15 * time.Second
+		if method == MPublicRand {
+			bound = e.period() + 8*time.Second
+		}
+		if ok, _ := e.timedCall(n, method, msg, label, bound); !ok {
+			return
+		}
+		if r.Bool(20) {
+			e.fuzzHTTP(n, r)
+		}
+		time.Sleep(time.Duration(r.Range(1, 200)) * time.Millisecond)
+	}
+	e.probe(n, "after-fuzz")
+}
+
+func (e *daemonEngine) fuzzHTTP(n *dNode, r *Rng) {
+	n.mu.Lock()
+	dd := n.dd
+	n.mu.Unlock()
+	if dd == nil {
+		return
+	}
+	paths := []string{"/public/-1", "/public/abc", "/public/18446744073709551616", "/public/0", "/public/latest/x", "//public/latest", "/zz/public/latest",
+		"/" + strings.Repeat("ab", 32) + "/public/latest", "/" + e.chainHashHex("default") + "/public/99999999999", "/info/", "/chains/x", "/health", "/" + strings.Repeat("f", 5000)}
+	p := paths[r.Intn(len(paths))]
+	done := make(chan struct{})
+	go func() {
+		defer close(done)
+		defer func() {
+			if x := recover(); x != nil {
+				e.rec.Count("probe:http_panic", 1)
+			}
+		}()
+		rec := httptest.NewRecorder()
+		req := httptest.NewRequest("GET", "http://node"+p, nil)
+		ctx, cancel := context.WithTimeout(context.Background(), 10*time.Second)
+		defer cancel()
+		dd.VerifHTTP().ServeHTTP(rec, req.WithContext(ctx))
+	}()
+	e.rec.Count("fuzz:http", 1)
+	select {
+	case <-done:
+	case <-time.After(e.period() + 20*time.Second):
+		e.rec.Violate("C14", "request-never-returned", "http", "node %s: GET %s did not return", n.addr, p[:min(len(p), 60)])
+	}
+}
+
+// probe: after hostile traffic the node still serves valid requests on every endpoint
+// and its DKG process still takes commands (the lock is free).
+func (e *daemonEngine) probe(n *dNode, when string) {
+	n.mu.Lock()
+	dd := n.dd
+	n.mu.Unlock()
+	if dd == nil || n.dead {
+		return
+	}
+	md := func() *drand.Metadata { return &drand.Metadata{BeaconID: "default"} }
+	e.rec.Count("probe:probes", 1)
+	type pr struct {
+		method string
+		msg    proto.Message
+		label  string
+		mustOK bool
+	}
+	loaded := e.bp(n, "default") != nil
+	running := e.chains["default"].chain != nil && loaded && e.bp(n, "default").VerifHandler() != nil
+	probes := []pr{
+		{MIdentity, &drand.IdentityRequest{Metadata: md()}, "probe-identity", loaded},
+		{MListBeacons, &drand.ListBeaconIDsRequest{}, "probe-listbeacons", true},
+		{MChainInfo, &drand.ChainInfoRequest{Metadata: md()}, "probe-chaininfo", running},
+		{MPublicRand, &drand.PublicRandRequest{Round: 0, Metadata: md()}, "probe-publicrand", running && e.curRound("default") >= 2},
+		{MStatus, &drand.StatusRequest{Metadata: md()}, "probe-status", loaded},
+		// a gossip packet with a fresh signature: takes the DKG lock, is rejected for its content
+		{MDKGPacket, &pdkg.GossipPacket{Metadata: &pdkg.GossipMetadata{BeaconID: "default", Address: e.nodes[0].addr, Signature: []byte(fmt.Sprintf("probe-%s-%d-%d", when, n.idx, time.Now().UnixNano()))},
+			Packet: &pdkg.GossipPacket_Abort{Abort: &pdkg.AbortDKG{Reason: "probe"}}}, "probe-gossip", false},
+	}
+	for _, p := range probes {
+		ok, err := e.timedCall(n, p.method, p.msg, p.label, 15*time.Second)
+		if !ok {
+			return
+		}
+		if p.mustOK && err != nil {
+			e.rec.Violate("C14", "valid-request-refused-after-hostile-traffic", p.label, "node %s (%s): %s failed: %v", n.addr, when, p.method, err)
+		}
+	}
+	// operator side: a DKG status and a command must come back
+	done := make(chan struct{})
+	go func() {
+		defer close(done)
+		_, _ = dd.DKGStatus(context.Background(), &pdkg.DKGStatusRequest{BeaconID: "default"})
+		// accepting when nothing is proposed is an error, but it needs the process lock
+		_, _ = dd.Command(context.Background(), &pdkg.DKGCommand{Metadata: &pdkg.CommandMetadata{BeaconID: "default"}, Command: &pdkg.DKGCommand_Reject{Reject: &pdkg.RejectOptions{}}})
+	}()
+	select {
+	case <-done:
+	case <-time.After(20 * time.Second):
+		e.rec.Violate("C14", "dkg-process-wedged", "command", "node %s (%s): a DKG command did not return within 20 s: the process lock is held", n.addr, when)
+	}
+}
+
+// ---------------------------------------------------------------- C15: secrets
+
+func encodings(b []byte) [][]byte {
+	rev := make([]byte, len(b))
+	for i := range b {
+		rev[len(b)-1-i] = b[i]
+	}
+	var out [][]byte
+	for _, x := range [][]byte{b, rev} {
+		out = append(out, x, []byte(hex.EncodeToString(x)), []byte(strings.ToUpper(hex.EncodeToString(x))),
+			[]byte(base64.StdEncoding.EncodeToString(x)), []byte(base64.URLEncoding.EncodeToString(x)), []byte(base64.RawStdEncoding.EncodeToString(x)))
+	}
+	return out
+}
+
+func (e *daemonEngine) scanSecrets() {
+	type secret struct {
+		who  string
+		what string
+		enc  [][]byte
+	}
+	var secrets []secret
+	for _, n := range e.nodes {
+		for id, p := range n.pairs {
+			if b, err := p.Key.MarshalBinary(); err == nil && len(b) >= 16 {
+				secrets = append(secrets, secret{n.addr, "long-term private key (" + id + ")", encodings(b)})
+			}
+		}
+		for _, id := range e.beaconIDs() {
+			if bp := e.bp(n, id); bp != nil {
+				if sh := bp.VerifShare(); sh != nil {
+					if b, err := sh.Share.V.MarshalBinary(); err == nil {
+						secrets = append(secrets, secret{n.addr, "key share (" + id + ")", encodings(b)})
+					}
+				}
+			}
+		}
+	}
+	// shares of earlier epochs were read when each epoch was collected
+	for _, s := range e.oldShares {
+		secrets = append(secrets, secret{s.who, "key share of an earlier epoch", encodings(s.b)})
+	}
+	e.wireMu.Lock()
+	wire := append([]byte(nil), e.wire.Bytes()...)
+	e.wireMu.Unlock()
+	e.rec.Count("probe:wire_bytes_scanned", len(wire))
+	for _, s := range secrets {
+		for k, enc := range s.enc {
+			if len(enc) < 16 {
+				continue
+			}
+			if bytes.Contains(wire, enc) {
+				e.rec.Violate("C15", "secret-on-the-wire", fmt.Sprintf("enc%d", k), "%s of %s appears in a message, response or HTTP body", s.what, s.who)
+			}
+			for _, n := range e.nodes {
+				n.mu.Lock()
+				found := bytes.Contains(n.logBuf.Bytes(), enc)
+				n.mu.Unlock()
+				if found {
+					e.rec.Violate("C15", "secret-in-log", fmt.Sprintf("enc%d", k), "%s of %s appears in the log of %s", s.what, s.who, n.addr)
+				}
+			}
+		}
+	}
+	logBytes := 0
+	for _, n := range e.nodes {
+		logBytes += n.logBuf.Len()
+	}
+	e.rec.Count("probe:log_bytes_scanned", logBytes)
+	e.rec.Count("probe:secrets_scanned", len(secrets))
+	// files: whatever holds a secret must be owner-only
+	for _, n := range e.nodes {
+		_ = filepath.Walk(n.dir, func(p string, fi os.FileInfo, err error) error {
+			if err != nil || fi.IsDir() || fi.Size() > 8<<20 {
+				return nil
+			}
+			b, err := os.ReadFile(p)
+			if err != nil {
+				return nil
+			}
+			e.rec.Count("probe:files_scanned", 1)
+			for _, s := range secrets {
+				if s.who != n.addr {
+					continue
+				}
+				for _, enc := range s.enc {
+					if len(enc) >= 16 && bytes.Contains(b, enc) {
+						if fi.Mode().Perm()&0o077 != 0 {
+							rel, _ := filepath.Rel(n.dir, p)
+							e.rec.Violate("C15", "secret-file-not-owner-only", filepath.Base(p), "%s holds the %s of %s with mode %o", rel, s.what, n.addr, fi.Mode().Perm())
+						}
+						e.rec.Count("probe:secret_files_found", 1)
+						return nil
+					}
+				}
+			}
+			return nil
+		})
+	}
+}
+
+// ---------------------------------------------------------------- C19: routing
+
+func (e *daemonEngine) stopBeacon(n *dNode, id string) {
+	n.mu.Lock()
+	dd := n.dd
+	n.mu.Unlock()
+	if dd == nil {
+		return
+	}
+	_, err := dd.Shutdown(context.Background(), &drand.ShutdownRequest{Metadata: &drand.Metadata{BeaconID: id}})
+	e.rec.Ev("stop_beacon", n.addr, "%s err=%v", id, err)
+	if err == nil {
+		n.mu.Lock()
+		if n.stopped == nil {
+			n.stopped = map[string]bool{}
+		}
+		n.stopped[id] = true
+		n.mu.Unlock()
+		e.rec.Count("fault:beacon_stopped", 1)
+	}
+}
+
+func (e *daemonEngine) loadBeacon(n *dNode, id string) {
+	n.mu.Lock()
+	dd := n.dd
+	n.mu.Unlock()
+	if dd == nil {
+		return
+	}
+	_, err := dd.LoadBeacon(context.Background(), &drand.LoadBeaconRequest{Metadata: &drand.Metadata{BeaconID: id}})
+	e.rec.Ev("load_beacon", n.addr, "%s err=%v", id, err)
+	if err == nil {
+		n.mu.Lock()
+		delete(n.stopped, id)
+		n.mu.Unlock()
+		e.rec.Count("fault:beacon_reloaded", 1)
+	}
+}
+
+// routeCheck: every (beacon id, chain hash) combination on the endpoints that
+// carry metadata; a successful answer must belong to the chain the request names.
+func (e *daemonEngine) routeCheck(n *dNode, at int64) {
+	ids := e.beaconIDs()
+	type opt struct {
+		id   string
+		set  bool
+		hash []byte
+		hid  string // chain the hash belongs to ("" none/unknown)
+		bad  bool
+	}
+	idOpts := []opt{{set: false}, {id: "default", set: true}, {id: "unknown-chain", set: true}}
+	for _, id := range ids {
+		if id != "default" {
+			idOpts = append(idOpts, opt{id: id, set: true})
+		}
+	}
+	hashOpts := []opt{{}}
+	for _, id := range ids {
+		h, _ := hex.DecodeString(e.chainHashHex(id))
+		hashOpts = append(hashOpts, opt{hash: h, hid: id})
+	}
+	hashOpts = append(hashOpts, opt{hash: bytes.Repeat([]byte{0xab}, 32), bad: true}, opt{hash: []byte{1, 2, 3}, bad: true})
+	n.mu.Lock()
+	stopped := map[string]bool{}
+	for k, v := range n.stopped {
+		stopped[k] = v
+	}
+	n.mu.Unlock()
+	for _, io := range idOpts {
+		for _, ho := range hashOpts {
+			md := &drand.Metadata{ChainHash: ho.hash}
+			if io.set {
+				md.BeaconID = io.id
+			}
+			// which chain may answer
+			expect := ""
+			switch {
+			case ho.hid != "" && (!io.set || io.id == ho.hid || (io.id == "" && ho.hid == "default")):
+				expect = ho.hid
+			case ho.hid != "" && io.set && io.id != ho.hid:
+				expect = "" // mismatching pair: must be refused
+			case ho.hash == nil && io.set:
+				expect = io.id
+			case ho.hash == nil && !io.set:
+				expect = "default"
+			}
+			if ho.bad || expect == "unknown-chain" || stopped[expect] {
+				expect = ""
+			}
+			known := false
+			for _, id := range ids {
+				if id == expect {
+					known = true
+				}
+			}
+			if !known {
+				expect = ""
+			}
+			e.rec.Count("probe:route_requests", 1)
+			cl := e.client("route")
+			// PublicRand
+			if resp, err := cl.PublicRand(context.Background(), n.pairs["default"].Public, &drand.PublicRandRequest{Round: 0, Metadata: proto.Clone(md).(*drand.Metadata)}); err == nil {
+				e.routeVerify(n, "PublicRand", io.id, io.set, ho.hash, expect, func(cc *chainCtx) bool {
+					return resp.Round == 0 || cc.chain.CheckBeacon(resp.Round, prevFor(cc, resp.Round, resp.PreviousSignature), resp.Signature) == ""
+				})
+			}
+			// ChainInfo
+			if resp, err := cl.ChainInfo(context.Background(), n.pairs["default"].Public, &drand.ChainInfoRequest{Metadata: proto.Clone(md).(*drand.Metadata)}); err == nil {
+				e.routeVerify(n, "ChainInfo", io.id, io.set, ho.hash, expect, func(cc *chainCtx) bool {
+					return hex.EncodeToString(resp.Hash) == e.chainHashHex(cc.id)
+				})
+			}
+			// GetIdentity
+			if resp, err := cl.GetIdentity(context.Background(), n.pairs["default"].Public, &drand.IdentityRequest{Metadata: proto.Clone(md).(*drand.Metadata)}); err == nil {
+				e.routeVerify(n, "GetIdentity", io.id, io.set, ho.hash, expect, func(cc *chainCtx) bool {
+					kb, _ := n.pairs[cc.id].Public.Key.MarshalBinary()
+					return bytes.Equal(resp.Key, kb) && resp.SchemeName == cc.sch.Name
+				})
+			}
+		}
+	}
+	// HTTP: paths under a chain hash serve that chain only
+	n.mu.Lock()
+	dd := n.dd
+	n.mu.Unlock()
+	if dd == nil {
+		return
+	}
+	for _, id := range ids {
+		rec := httptest.NewRecorder()
+		func() {
+			defer func() { _ = recover() }()
+			ctx, cancel := context.WithTimeout(context.Background(), 5*time.Second)
+			defer cancel()
+			dd.VerifHTTP().ServeHTTP(rec, httptest.NewRequest("GET", "/"+e.chainHashHex(id)+"/info", nil).WithContext(ctx))
+		}()
+		if rec.Code == 200 {
+			if stopped[id] {
+				e.rec.Violate("C19", "stopped-chain-still-served", "http", "node %s: GET /<hash of %s>/info answered after the chain was stopped", n.addr, id)
+			} else if !strings.Contains(rec.Body.String(), e.chainHashHex(id)) {
+				e.rec.Violate("C19", "answered-by-another-chain", "http", "node %s: GET /<hash of %s>/info returned another chain's info", n.addr, id)
+			}
+		}
+	}
+}
+
+func (e *daemonEngine) routeVerify(n *dNode, where, id string, idSet bool, hash []byte, expect string, belongs func(cc *chainCtx) bool) {
+	desc := fmt.Sprintf("id=%q(set=%v) hash=%x", id, idSet, head(hash))
+	if expect == "" {
+		// a refusal was due; an answer is only acceptable if ... it is not: find out whose it is
+		for _, cc := range e.chains {
+			if cc.chain != nil && belongs(cc) {
+				e.rec.Violate("C19", "request-that-must-be-refused-was-served", where, "node %s: %s with %s was answered by chain %q", n.addr, where, desc, cc.id)
+				return
+			}
+		}
+		e.rec.Violate("C19", "request-that-must-be-refused-was-served", where, "node %s: %s with %s was answered", n.addr, where, desc)
+		return
+	}
+	cc := e.chains[expect]
+	if cc.chain == nil {
+		return
+	}
+	e.rec.Count("probe:route_answers_checked", 1)
+	if !belongs(cc) {
+		e.rec.Violate("C19", "answered-by-another-chain", where, "node %s: %s with %s should be served by chain %q and was not", n.addr, where, desc, expect)
+	}
+}
